@@ -43,6 +43,7 @@ def run(prop, tier, apis=None):
     if apis == ["abort_nostd"]:
         res["coverage"] = {"engine": "MIR symbolic execution with unwind edges (wmm/unwind.py)", "samples": []}
         run_abort_nostd(prop, res)
+        run_overflow_path(prop, res)
         res["assumptions"] = ["Engine U: core's panic entry points start unwinding; a panic raised inside a clean-up block (`unwind terminate`) terminates the process"]
         log(f"[{prop}] unwinding engine (no_std abort): {res['queries']} paths, {len(res['violations'])} violate, {len(res['inconclusive'])} inconclusive")
         return res
@@ -167,6 +168,51 @@ def run_abort_nostd(prop, res):
                                       "what": "the overflow guard does not terminate the process in the no_std build: the panic is catchable (native replay: the process survived a clone past the limit)", "replay": path})
         else:
             res["inconclusive"].append({"error": f"no_std abort() leaves by {e} in the model but the native run was killed as required (see {path})"})
+
+
+def run_overflow_path(prop, res):
+    """C16, std build: past the limit Arc::clone may only end by terminating the process."""
+    try:
+        mirpath, mircmd = wmm_engine.dump_mir()
+    except Exception as e:
+        res["inconclusive"].append({"error": "MIR dump failed: " + str(e)})
+        return
+    sys.path.insert(0, os.path.join(VERIF, "wmm"))
+    import unwind
+    try:
+        exits = unwind.check_overflow_path(open(mirpath).read())
+    except Exception as e:
+        res["inconclusive"].append({"error": f"unwinding engine cannot encode the overflow path of Arc::clone: {type(e).__name__}: {e}"})
+        return
+    finally:
+        for f in (mirpath, mirpath + ".err"):
+            try:
+                os.remove(f)
+            except OSError:
+                pass
+    res["queries"] += len(exits)
+    res["nontrivial"] += len(exits)
+    res["coverage"]["overflow_path"] = {"mir_dump_cmd": mircmd, "paths": exits,
+                                        "claim": "from every count above isize::MAX, Arc::clone ends only by process termination; nothing that can panic or return runs between the overflow test and the abort"}
+    if not exits:
+        res["inconclusive"].append({"error": "no path through Arc::clone above the limit was found"})
+    bad = [e for e in exits if e["ends_by"] != "abort"]
+    if bad:
+        nat = native_replay("Arc::clone_overflow", "none", "panic", 1)
+        reproduced = any(r["exit"] not in (0, None, 3) for r in nat)
+        e = bad[0]
+        key = f"{prop}:unwind:overflow_path:{e['ends_by']}"
+        os.makedirs(os.path.join(REPLAYS, prop), exist_ok=True)
+        path = os.path.join(REPLAYS, prop, "unwind-overflow-path.json")
+        with open(path, "w") as f:
+            json.dump({"engine": "unwind", "property": prop, "key": key, "api": "Arc::clone_overflow", "paths": bad,
+                       "native_replay": {"args": ["Arc::clone_overflow", "none", "panic", 1], "runs": nat, "reproduced": reproduced},
+                       "repo_fingerprint": repo_fingerprint()}, f, indent=1)
+        if reproduced:
+            res["violations"].append({"key": key, "scenario": f"Arc::clone from count {e['count']} [{' ; '.join(e['steps'])}] leaves by {e['ends_by']}",
+                                      "what": "past the limit the clone can end by a catchable panic instead of terminating the process (native replay with an unwritable stderr: the process survived)", "replay": path})
+        else:
+            res["inconclusive"].append({"error": f"overflow path of Arc::clone can leave by {e['ends_by']} in the model ({' ; '.join(e['steps'])}) but the native run was killed as required (see {path})"})
 
 
 def native_nostd():
